@@ -170,9 +170,16 @@ theorem inv_recOpen {cfg : Cfg} {s : St} {d : Disk} (h : Inv cfg s d) {s' : St}
           · intro p hp hpt g hg
             obtain ⟨q, _, hq1, hge⟩ := (mem_journalsFrom hsorted).1 hpt
             rw [hrv] at hge
-            show r.mv.sq ≤ g.seq
-            rw [hrv]
-            exact (hvok.jseq p (mem_relJournals.2 ⟨hp, hge⟩) g hg).1
+            rcases (hvok.jseq p (mem_relJournals.2 ⟨hp, hge⟩) g hg).1 with h1 | h1
+            · left
+              show r.mv.sq ≤ g.seq
+              rw [hrv]
+              exact h1
+            · right
+              intro hx
+              apply h1
+              rw [must_eq] at hx ⊢
+              exact hx
           · unfold Settled
             rw [hcur]
             simp only [Holds]
